@@ -30,7 +30,7 @@ TIERS = {
         parts=[dict(Part='"all"', MaxN=3, Big=0, Rich=0, Cap=1000)],
         zerovar=[dict(Part='"all"', MaxN=2, Big=0, Rich=0, Cap=300)],
         sim=None,
-        ji=[(2, 4), (3, 3)], ji_bug=[(2, 3), (3, 3)], walk_every=2,
+        ji=[(2, 4), (3, 3)], ji_bug=[(2, 3), (3, 3)], walk_every=3,
         record=(200, 1)),
     "thorough": dict(
         parts=[dict(Part='"vec"', MaxN=4, Big=1, Rich=1, Cap=8000),
